@@ -720,6 +720,8 @@ func forwardCase(idx int64, r *rand.Rand) {
 		if !strings.HasSuffix(want, ".") {
 			want += "."
 		}
+		// ids may themselves begin with the prefix (a limit named like the prefix, nested names): they are prefixed all the same
+		ids := append(append([]string(nil), ids...), want+"nested", strings.TrimSuffix(want, ".")+"x")
 		for k := 0; k < 6; k++ {
 			id := ids[r.IntN(len(ids))] + fmt.Sprint(k)
 			full := want + strings.TrimPrefix(id, ".")
@@ -773,6 +775,7 @@ func forwardCase(idx int64, r *rand.Rand) {
 	if !strings.HasSuffix(want, ".") {
 		want += "."
 	}
+	ids = append(append([]string(nil), ids...), want+"nested", strings.TrimSuffix(want, ".")+"x")
 	for k := 0; k < 6; k++ {
 		id := ids[r.IntN(len(ids))] + fmt.Sprint(k)
 		full := want + strings.TrimPrefix(id, ".")
@@ -1283,6 +1286,52 @@ func lifecycleConcurrent(idx int64, r *rand.Rand) {
 		for k := 0; k < 6+r.IntN(10); k++ {
 			scripts[g] = append(scripts[g], r.IntN(2) == 0)
 		}
+	}
+	fail0 := func(sig string, extra rt.J) {
+		extra["registry"], extra["goroutines"], extra["poll_period"] = pkg, nG, poll.String()
+		rt.Violation("C20/"+pkg+"/concurrent/"+sig, idx, extra)
+		rt.Flush()
+		os.Exit(0)
+	}
+	// simultaneous Starts of a stopped registry (a spin barrier lets them go within nanoseconds of each other): one
+	// poller, and the following Stop returns and leaves none
+	for round := 0; round < 25; round++ {
+		var ready, goNow atomic.Int32
+		okR := withWatchdog(func() {
+			var wg sync.WaitGroup
+			for g := 0; g < nG+2; g++ {
+				wg.Add(1)
+				go func() {
+					defer wg.Done()
+					ready.Add(1)
+					for goNow.Load() == 0 {
+					}
+					mr.Start()
+				}()
+			}
+			for ready.Load() < int32(nG+2) {
+				runtime.Gosched()
+			}
+			goNow.Store(1)
+			wg.Wait()
+			if got := settle(pkg, 1); got != 1 {
+				fail0("simultaneous-starts-left-other-than-one-poller", rt.J{"pollers": got, "round": round})
+			}
+			mr.Stop()
+		})
+		if !okR {
+			st := stacksOf("metric_registry/" + pkg)
+			if strings.Contains(st, "sync.(*WaitGroup).Wait") || strings.Contains(st, "sync.(*Mutex).Lock") || strings.Contains(st, "chan send") {
+				fail0("Stop-after-simultaneous-starts-never-returns", rt.J{"round": round, "stacks": st[:min(len(st), 4000)]})
+			}
+			rt.Inconclusive("C20 simultaneous Starts: watchdog fired without a registry goroutine blocked")
+			rt.Flush()
+			os.Exit(0)
+		}
+		if got := settle(pkg, 0); got != 0 {
+			fail0("poller-alive-after-stop-following-simultaneous-starts", rt.J{"pollers": got, "round": round})
+		}
+		rt.Count("simultaneous_start_rounds", 1)
 	}
 	ok := withWatchdog(func() {
 		var wg sync.WaitGroup
